@@ -51,6 +51,8 @@ fn all_strings(alphabet: &[char], max_len: usize) -> Vec<String> {
     out
 }
 
+static DIRECT_CALLS: std::sync::atomic::AtomicBool = std::sync::atomic::AtomicBool::new(false);
+
 enum Outcome<T> {
     Done(T),
     Panicked,
@@ -59,6 +61,13 @@ enum Outcome<T> {
 
 /// runs `f` on its own thread; a panic is caught, a run longer than `ms` milliseconds is abandoned (the thread leaks)
 fn run_limited<T: Send + 'static>(ms: u64, f: impl FnOnce() -> T + Send + 'static) -> Outcome<T> {
+    if DIRECT_CALLS.load(std::sync::atomic::Ordering::Relaxed) {
+        // child process of a sweep: the parent watches the clock and kills the whole process
+        return match catch_unwind(AssertUnwindSafe(f)) {
+            Ok(v) => Outcome::Done(v),
+            Err(_) => Outcome::Panicked,
+        };
+    }
     let (tx, rx) = mpsc::channel();
     std::thread::Builder::new()
         .stack_size(16 << 20)
@@ -75,6 +84,9 @@ fn run_limited<T: Send + 'static>(ms: u64, f: impl FnOnce() -> T + Send + 'stati
 }
 
 fn quiet_panics() {
+    if std::env::var("C06_LOUD").is_ok() {
+        return;
+    }
     std::panic::set_hook(Box::new(|_| {}));
 }
 
@@ -222,6 +234,10 @@ pub fn replay(twin: &str, input: &Value) -> Value {
 
 pub fn sweep(twin: &str, seed: u64) -> Value {
     quiet_panics();
+    if let Some((real_twin, start)) = twin.split_once("@child@") {
+        br_child(real_twin, start.parse().unwrap_or(0), seed);
+        return json!({"cases": 0, "disagreements": 0, "child": true});
+    }
     if twin.starts_with("c06.ci_") {
         let (cases, bad, panics, first) = ci_sweep(twin);
         json!({"cases": cases, "evaluations": cases, "disagreements": bad, "panics": panics, "first": first})
@@ -240,9 +256,12 @@ const BR_ALPHABET: [char; 2] = ['a', 'b'];
 /// strings up to this length are enumerated for the language comparisons
 const BR_MAX_LEN: usize = 6;
 /// time limit for one call of the real function
-const BR_LIMIT_MS: u64 = 3000;
-/// after this many calls that did not return the sweep stops starting new ones (every one leaks a spinning thread)
-const BR_MAX_HANGS: u64 = 3;
+const BR_LIMIT_MS: u64 = 1000;
+/// after this many calls that did not return the sweep stops (the rest is counted as skipped)
+const BR_MAX_HANGS: u64 = 40;
+fn br_max_hangs() -> u64 {
+    std::env::var("C06_MAX_HANGS").ok().and_then(|x| x.parse().ok()).unwrap_or(BR_MAX_HANGS)
+}
 
 /// model of a brick value, independent of the crate's private `Brick` type
 #[derive(Clone, Debug, PartialEq)]
@@ -516,13 +535,6 @@ fn br_check(twin: &str, input: &Value) -> BrVerdict {
     }
 }
 
-fn br_has_rule5_brick(input: &Value) -> bool {
-    ["a", "b", "x"].iter().any(|k| match mbricks_from(&input[*k]) {
-        Some(Some(l)) => l.iter().any(|b| matches!(b, MBrick::Val { min, max, .. } if *min >= 1 && *max > *min)),
-        _ => false,
-    })
-}
-
 struct BrResult {
     skipped: u64,
     cases: u64,
@@ -568,6 +580,23 @@ fn br_inputs(twin: &str, seed: u64) -> Vec<Value> {
             }
         }
         "c06.br_append" | "c06.br_widen" | "c06.br_merge" => {
+            if twin == "c06.br_merge" {
+                // values built with the crate's own constructors only: from(s1).append(from(s2)) against from(s3) and from(s3).append(from(s4))
+                let lits = ["", "a", "b", "ab"];
+                let mk = |s: &str| BricksDomain::from(s.to_string());
+                for s1 in lits {
+                    for s2 in lits {
+                        let a = model_bricks(&mk(s1).append_string_domain(&mk(s2)));
+                        for s3 in lits {
+                            out.push(json!({"a": mbricks_json(&a), "b": mbricks_json(&model_bricks(&mk(s3)))}));
+                            for s4 in lits {
+                                let b = model_bricks(&mk(s3).append_string_domain(&mk(s4)));
+                                out.push(json!({"a": mbricks_json(&a), "b": mbricks_json(&b)}));
+                            }
+                        }
+                    }
+                }
+            }
             for i in 0..6000 {
                 let normalish = i % 2 == 0;
                 let a = br_random_list(&mut rng, normalish, 3);
@@ -597,34 +626,113 @@ fn br_inputs(twin: &str, seed: u64) -> Vec<Value> {
     out
 }
 
+/// child side of a sweep (`sweep <twin>@child@<start>`): checks the inputs from index `start` on, one line `<index> <verdict>` each
+fn br_child(twin: &str, start: usize, seed: u64) {
+    use std::io::Write;
+    DIRECT_CALLS.store(true, std::sync::atomic::Ordering::Relaxed);
+    let inputs = br_inputs(twin, seed);
+    let out = std::io::stdout();
+    println!("ready");
+    for (i, input) in inputs.iter().enumerate().skip(start) {
+        let line = match br_check(twin, input) {
+            BrVerdict::Agrees => json!({"v": "ok"}),
+            BrVerdict::Disagrees(d) => json!({"v": "bad", "d": d}),
+            BrVerdict::Panicked(d) => json!({"v": "panic", "d": d}),
+            BrVerdict::Hung(d) => json!({"v": "hang", "d": d}),
+        };
+        let mut h = out.lock();
+        let _ = writeln!(h, "{} {}", i, line);
+        let _ = h.flush();
+    }
+}
+
+/// The real functions may not return (see the findings of unit `bricks`): the inputs are checked in a child process that reports
+/// after every case; when it stays silent for BR_LIMIT_MS the parent kills it, records the input it was working on as a hang and
+/// starts a new child behind that input.
 fn br_sweep(twin: &str, seed: u64) -> BrResult {
+    use std::io::BufRead;
     let mut r = BrResult { skipped: 0, cases: 0, bad: 0, panics: 0, hangs: 0, first: None, first_panic: None, first_hang: None };
-    for input in br_inputs(twin, seed) {
-        // every call that does not return leaks a spinning thread: once BR_MAX_HANGS of them were seen, inputs holding a brick
-        // with 1 <= min < max (the shape all observed hangs have: rule 5 of normalize applies) are skipped and counted
-        if r.hangs >= BR_MAX_HANGS && br_has_rule5_brick(&input) {
-            r.skipped += 1;
-            continue;
-        }
-        if r.hangs >= 4 * BR_MAX_HANGS {
+    let inputs = br_inputs(twin, seed);
+    let exe = std::env::current_exe().expect("own path");
+    let mut next = 0usize;
+    while next < inputs.len() {
+        if r.hangs >= br_max_hangs() {
+            r.skipped = (inputs.len() - next) as u64;
             break;
         }
-        r.cases += 1;
-        match br_check(twin, &input) {
-            BrVerdict::Agrees => {}
-            BrVerdict::Disagrees(d) => {
-                r.bad += 1;
-                r.first.get_or_insert(d);
+        let mut child = std::process::Command::new(&exe)
+            .args(["sweep", &format!("{}@child@{}", twin, next), "--seed", &seed.to_string()])
+            .stdout(std::process::Stdio::piped())
+            .stderr(std::process::Stdio::null())
+            .spawn()
+            .expect("cannot start the child sweep");
+        let stdout = child.stdout.take().unwrap();
+        let (tx, rx) = mpsc::channel();
+        std::thread::spawn(move || {
+            for line in std::io::BufReader::new(stdout).lines() {
+                match line {
+                    Ok(l) => {
+                        if tx.send(l).is_err() {
+                            break;
+                        }
+                    }
+                    Err(_) => break,
+                }
             }
-            BrVerdict::Panicked(d) => {
-                r.panics += 1;
-                r.first_panic.get_or_insert(d);
+        });
+        // the child says "ready" once it has built its inputs (start-up is not charged to the first case)
+        let _ = rx.recv_timeout(Duration::from_millis(30_000));
+        loop {
+            if next >= inputs.len() {
+                break;
             }
-            BrVerdict::Hung(d) => {
-                r.hangs += 1;
-                r.first_hang.get_or_insert(d);
+            match rx.recv_timeout(Duration::from_millis(BR_LIMIT_MS)) {
+                Ok(line) => {
+                    let mut parts = line.splitn(2, ' ');
+                    let idx: usize = match parts.next().and_then(|x| x.parse().ok()) {
+                        Some(i) => i,
+                        None => continue,
+                    };
+                    let v: Value = serde_json::from_str(parts.next().unwrap_or("{}")).unwrap_or(json!({}));
+                    r.cases += 1;
+                    next = idx + 1;
+                    match v["v"].as_str() {
+                        Some("bad") => {
+                            r.bad += 1;
+                            r.first.get_or_insert(v["d"].clone());
+                        }
+                        Some("panic") => {
+                            r.panics += 1;
+                            r.first_panic.get_or_insert(v["d"].clone());
+                        }
+                        _ => {}
+                    }
+                }
+                Err(mpsc::RecvTimeoutError::Timeout) => {
+                    // silent for too long: the case `next` does not return
+                    r.cases += 1;
+                    r.hangs += 1;
+                    if std::env::var("C06_SHOW_HANGS").is_ok() {
+                        eprintln!("HANG {}", inputs[next]);
+                    }
+                    r.first_hang.get_or_insert(json!({"input": inputs[next], "expected": "a result", "got": "no result within the time limit"}));
+                    next += 1;
+                    break;
+                }
+                Err(mpsc::RecvTimeoutError::Disconnected) => {
+                    // the child ended (all inputs done, or it died: then the case `next` is counted as a panic)
+                    if next < inputs.len() {
+                        r.cases += 1;
+                        r.panics += 1;
+                        r.first_panic.get_or_insert(json!({"input": inputs[next], "expected": "a result", "got": "the process died"}));
+                        next += 1;
+                    }
+                    break;
+                }
             }
         }
+        let _ = child.kill();
+        let _ = child.wait();
     }
     r
 }
